@@ -249,6 +249,7 @@ pub fn local_case(seed: u64, index: u64, root: &Obj, froot: &Obj, faults: &[crat
     let fault = &faults[0];
     let mut referenced = BTreeSet::new();
     referenced_ids(root, &mut referenced);
+    referenced_ids(froot, &mut referenced); // ids a planted binding refers to keep their names too
     let target_id = root.pre_order()[fault.obj].id.clone();
     let mut free = root.clone();
     let mut faulted = froot.clone();
@@ -362,6 +363,18 @@ fn witness_request(name: &str) -> Sexp {
             let faulted = doc(Obj::new("QLabel").with_id("l").bind("text", "srcSpin.value"));
             let f = mk("dynamic-type-mismatch", 2, "text", "srcSpin.value", LeafSpec { konst: Konst::Dyn, ret_ok: false, ..base.clone() }, false, "expression type mismatch", (true, true, true));
             local_case(0, 0, &free, &faulted, std::slice::from_ref(&f), crate::ledger::DocOpts::default(), false).0
+        }
+        // round 3: an ill-typed constant `actions` value is reported in preview mode; the form is the twin's
+        "ill-typed-actions" => {
+            let doc = |acts: bool| {
+                let mut w = Obj::new("QWidget").with_id("w").child(Obj::new("QAction").with_id("open").bind("text", "\"Open\""));
+                if acts {
+                    w = w.bind("actions", "open");
+                }
+                root(vec![w])
+            };
+            let f = mk("ill-typed-actions", 1, "actions", "open", LeafSpec { konst: Konst::Fail, ret_ok: false, readable: false, writable: false, ..base.clone() }, false, "expression type mismatch", (true, true, true));
+            local_case(0, 0, &doc(false), &doc(true), std::slice::from_ref(&f), crate::ledger::DocOpts::default(), false).0
         }
         // an unknown type above an instance of a custom component and above an object a surviving label refers to
         "unknown-above-component" => {
